@@ -334,6 +334,9 @@ func (ex *Exec) check(extras []*Term, want []*Term) (string, map[string]ModelVal
 	if !ex.deadline.IsZero() && time.Now().After(ex.deadline) {
 		return "unknown", nil // the run's time budget is spent: everything further is inconclusive
 	}
+	if ex.fpMode {
+		return ex.sol.Check(extras, want, false) // no real-arithmetic lemmas in the bit-precise mode
+	}
 	ax, nl := ex.relevantAxioms(extras)
 	if len(ax) == 0 {
 		return ex.sol.Check(extras, want, nl)
@@ -758,6 +761,12 @@ var vrtIntrinsics = map[string]intrinsicFn{
 			panic(&GoPanic{Kind: "unsupported", Msg: "missing param " + a[0].(string)})
 		}
 		return v
+	},
+	"ParamOr": func(ex *Exec, _ *ssa.Function, a []Value, _ ssa.Instruction) Value {
+		if v, ok := ex.params[a[0].(string)]; ok {
+			return v
+		}
+		return a[1]
 	},
 	"SParam": func(ex *Exec, _ *ssa.Function, a []Value, _ ssa.Instruction) Value {
 		return ex.sparams[a[0].(string)]
